@@ -368,8 +368,10 @@ def conclude(args, mod, cases, results, worker_errs, wall):
         'wall_s': round(wall, 2),
         'violations': len(viol),
     }
-    (ROOT / 'evidence').mkdir(exist_ok=True)
-    (ROOT / 'evidence' / f'{pid}.json').write_text(json.dumps(evidence, indent=1) + '\n')
+    # evidence of runs against another tree than /repo (self-test, seeded changes) must not replace the committed one
+    evdir = Path(os.environ['VERIF_EVIDENCE_DIR']) if os.environ.get('VERIF_EVIDENCE_DIR') else ROOT / 'evidence'
+    evdir.mkdir(exist_ok=True, parents=True)
+    (evdir / f'{pid}.json').write_text(json.dumps(evidence, indent=1) + '\n')
 
     print(f'{pid} tier={args.tier} seed={args.seed}: {n_eval} cases, {len(fps)} distinct non-trivial, '
           f'{sum(counters.values())} monitor events, {len(viol)} violations, {wall:.1f}s')
